@@ -31,7 +31,8 @@ def drive(sc):
     v, lb, ub = sc["v"], [f(b) for b in sc["lb"]], [f(b) for b in sc["ub"]]
     transforms = make_transforms([2.0, 0.5], [1.0, -1.0], [2.0], [2.0, 4.0]) if sc["tf"] else None
     cfg = {
-        "variables": {"initial_values": [float(x) for x in v], "lower_bounds": lb, "upper_bounds": ub},
+        "variables": ({"initial_values": [float(x) for x in v]} if sc.get("vfree") else
+                      {"initial_values": [float(x) for x in v], "lower_bounds": lb, "upper_bounds": ub}),
         "linear_constraints": {"coefficients": [[1.0, 1.0], [1.0, -1.0]], "lower_bounds": lb, "upper_bounds": ub},
         "nonlinear_constraints": {"lower_bounds": lb, "upper_bounds": ub},
     }
@@ -49,7 +50,7 @@ def drive(sc):
     _, outcome = outcome_of(lambda: plan.run_step(step, config=cfg, transforms=transforms))
     fr = next((r for r in seen if isinstance(r, FunctionResults)), None)
     ci = None if fr is None else fr.constraint_info
-    e = {"ev": "Info", "v": v, "lb": sc["lb"], "ub": sc["ub"], "tol": sc["tol"], "tf": bool(sc["tf"]),
+    e = {"ev": "Info", "v": v, "lb": sc["lb"], "ub": sc["ub"], "tol": sc["tol"], "tf": bool(sc["tf"]), "vfree": bool(sc.get("vfree", False)),
          "outcome": outcome if fr is not None or outcome != "ok" else "exc:noresult",
          "bound": group(*(None, None, None) if ci is None else (ci.bound_lower, ci.bound_upper, ci.bound_violation)),
          "linear": group(*(None, None, None) if ci is None else (ci.linear_lower, ci.linear_upper, ci.linear_violation)),
